@@ -3,6 +3,6 @@
 TIER=${1:-quick}; SEED=${2:-1}; JOBS=${3:-4}
 cd "$(dirname "$0")/.."
 ids=$(jq -r '.checks[].property_id' MANIFEST.json)
-run() { id=$1; s=$(date +%s); out=$(VERIF_SEED=$SEED ./check $id $TIER 2>&1 | grep '^OK\|^VIOLATION\|^INCONCLUSIVE\|^KNOWN' | head -3 | cut -c1-220); echo "$id rc=$? $(( $(date +%s)-s ))s | $out"; }
+run() { id=$1; s=$(date +%s); out=$(VERIF_SEED=$SEED ./check $id $TIER 2>&1; echo "EXIT=$?"); rc=${out##*EXIT=}; out=$(echo "$out" | grep '^OK\|^VIOLATION\|^INCONCLUSIVE\|^KNOWN' | head -3 | cut -c1-220); echo "$id rc=$rc $(( $(date +%s)-s ))s | $out"; }
 export -f run; export SEED TIER
 echo $ids | tr ' ' '\n' | xargs -P $JOBS -I{} bash -c 'run {}'
